@@ -279,3 +279,54 @@ Theorem C01_host_bracket_port_irrelevant_refuted :
     tserve (tbuild sites) xf (bracketed a None) up proto.
 Proof. exact host_bracket_one_colon_differs. Qed.
 Print Assumptions C01_host_bracket_port_irrelevant_refuted.
+
+(* ===================== several listeners in one process ===================== *)
+(* NewServer is modelled with Go's slice semantics (arrays on a heap, append writes in place while
+   the capacity lasts): every trie gets its own fallback-host array, so appending a listener's
+   designated fallback hosts never writes into memory another listener reads. For EVERY sequence
+   of listener groups created in one process (several listeners, or the same groups created
+   again as a reload does) and every listener i, a request on listener i — sent after all of
+   them exist — is routed exactly as by a server created alone from listener i's own group:
+   "else a catch-all or designated fallback site" means one OF THAT LISTENER. *)
+Theorem C01_fallback_list_is_per_listener : forall groups i g hh up proto,
+  nth_error groups i = Some g ->
+  mserve groups i hh up proto = Some (tserve (tbuild (fst g)) (snd g) hh up proto).
+Proof. exact fallback_list_is_per_listener. Qed.
+Print Assumptions C01_fallback_list_is_per_listener.
+
+(* ... hence it depends on nothing but that group: any two processes in which a listener has the
+   same group route its requests identically, whatever else was created before or after *)
+Theorem C01_listener_routing_independent_of_other_listeners : forall groups groups' i i' hh up proto,
+  nth_error groups i = nth_error groups' i' -> nth_error groups i <> None ->
+  mserve groups i hh up proto = mserve groups' i' hh up proto.
+Proof. exact listener_independent. Qed.
+Print Assumptions C01_listener_routing_independent_of_other_listeners.
+
+(* ... and it is the declarative statement [spec] evaluated on that listener's own sites *)
+Theorem C01_listener_routes_as_spec : forall groups i g hh up proto,
+  nth_error groups i = Some g ->
+  mserve groups i hh up proto = Some (spec (fst g) (snd g) hh up proto).
+Proof. exact listener_routes_as_spec. Qed.
+Print Assumptions C01_listener_routes_as_spec.
+Example C01_fallback_list_is_per_listener_nonvacuous :
+  let ga : group := ([(bs "a.example"%string, 1)], [bs "a.example"%string]) in
+  let gb : group := ([(bs "b.example"%string, 2); (bs "a.example/x"%string, 3)], [bs "b.example"%string]) in
+  nth_error [ga; gb; ga] 0 = Some ga /\
+  mserve [ga; gb; ga] 0 (bs "zzz"%string) (bs "/x"%string) 1 = Some (Site 1 (bs "/"%string)) /\
+  mserve [ga; gb; ga] 1 (bs "zzz"%string) (bs "/x"%string) 1 = Some (Site 2 (bs "/"%string)) /\
+  mserve [ga; gb; ga] 2 (bs "zzz:80"%string) (bs "/x"%string) 2 = Some (Site 1 (bs "/"%string)).
+Proof. vm_compute. repeat split; reflexivity. Qed.
+
+(* the same heap model with ONE shared list of len 3 / cap 4 instead of a list per trie: the
+   second listener's append lands in the first listener's fourth slot, and the first listener
+   answers 404 for a host its own designated fallback site must serve *)
+Theorem C01_shared_fallback_list_would_leak :
+  let hp0 := [default_fallbacks ++ [[]]] in
+  let shared := {| sl_arr := 0; sl_len := 3; sl_cap := 4 |} in
+  let ga : group := ([(bs "a.example"%string, 1)], [bs "a.example"%string]) in
+  let gb : group := ([(bs "b.example"%string, 2)], [bs "b.example"%string]) in
+  mserve_st (fold_left (new_server_shared shared) [ga; gb] (hp0, [])) 0 (bs "zzz"%string) (bs "/"%string) 1
+    = Some (NotFound 404) /\
+  mserve [ga; gb] 0 (bs "zzz"%string) (bs "/"%string) 1 = Some (Site 1 (bs "/"%string)).
+Proof. exact shared_list_leaks. Qed.
+Print Assumptions C01_shared_fallback_list_would_leak.
